@@ -23,6 +23,8 @@ func profile(name string) (lifes, forms, variants []int) {
 		return all, []int{kit.IdPlain}, []int{0, 1, 2, 3, 4, 5, 6, 9, 10, 11, 15}
 	case 2: // groups and interfaces
 		return all, []int{kit.IdPlain, kit.IdGroup, kit.IdAs, kit.IdAsGroup, kit.IdAsNamed}, []int{0, 5, 7, 8, 12, 14, 16, 17}
+	case 4: // multi-output forms incl. those godi cannot construct today
+		return all, []int{kit.IdPlain, kit.IdMulti, kit.IdResObj, kit.IdResObj2, kit.IdMultiNamed, kit.IdMultiGroup}, []int{0, 1, 11}
 	case 3: // initializers
 		return all, []int{kit.IdPlain, kit.IdVoid, kit.IdVoidErr, kit.IdNamed}, []int{0, 1, 3, 4, 11}
 	}
@@ -147,6 +149,16 @@ func H_Hist() {
 		}
 	}
 	vrt.Finding("KF-C01-multi-alias", as2)
+	multiOpt := false
+	for r := 0; r < n; r++ {
+		if f := w.Regs[r].Form; f == kit.IdMultiNamed || f == kit.IdMultiGroup {
+			multiOpt = true
+		}
+	}
+	vrt.Finding("KF-C04-multi-options", multiOpt)
+	if vrt.Param("as2", 1) == 0 {
+		vrt.Assume(!as2) // the alias rule is C01's; other properties leave it out
+	}
 
 	c := godi.NewCollection()
 	errs := w.Register(c)
